@@ -84,3 +84,19 @@ Example ex_history :
   view (hrun (hinit [TAny; TRec false [(FName 0, TAtom ANum)]; TAny]) [HUnify 0 1; HUnify 2 0; HClose 1]) =
   let t := TRec true [(FName 0, TAtom ANum)] in [t; t; t].
 Proof. reflexivity. Qed.
+
+(* ---------- the list element constraint `b in a` (Types/TypeElem.v, model of UnifyListElement) ---------- *)
+From LV Require Import Types.TypeElem.
+Theorem C16_element_constraint_list_side :
+  forall a b, wf a = true -> wf b = true ->
+  forall g, inst (fst (unify_list_element a b)) (GList g) = inst a (GList g) && (inst b g && scalar g).
+Proof. exact list_after_element_analysis. Qed.
+
+Theorem C16_element_constraint_element_side :
+  forall a b e, wf a = true -> wf b = true -> fst (unify_list_element a b) = TList e ->
+  snd (unify_list_element a b) = e /\ forall g, inst e g = inst a (GList g) && (inst b g && scalar g).
+Proof. exact element_after_element_analysis. Qed.
+
+Theorem C16_list_vs_scalar_clash_in_membership :
+  forall a b g, wf a = true -> wf b = true -> inst (fst (unify_list_element a b)) (GList (GList g)) = false.
+Proof. exact list_element_clashes. Qed.
